@@ -1,5 +1,5 @@
-INIT Init
-NEXT MCNext
+INIT SInit
+NEXT SNext
 CONSTANTS
   Stacks <- Stacks2
   Indeps <- Both
@@ -13,6 +13,8 @@ CONSTANTS
   RenderClasses <- C3Render
   Mro <- MCMro
   StatusOf <- MCStatus
+  OwnVary <- MCOwnVary
+  MaxReqs = 1
   WrongDesign = "none"
   MaxFaults = 2
 INVARIANT Emit
